@@ -1,0 +1,109 @@
+//! Verification hooks (compiled only with the `verif-hooks` feature).
+//!
+//! `atomic::{AtomicU64, AtomicUsize}` are thin wrappers over the std atomics that call
+//! [`yield_point`] before every operation. `yield_point` is a no-op unless the current
+//! thread has installed a scheduler with [`install_scheduler`]; an external test harness
+//! uses it to own the interleaving of the atomic steps of the lock-free code.
+
+use std::cell::RefCell;
+use std::sync::Arc;
+
+thread_local! {
+    static SCHEDULER: RefCell<Option<Arc<dyn Fn() + Send + Sync>>> = const { RefCell::new(None) };
+}
+
+/// Installs (or removes) the scheduling callback of the current thread.
+pub fn install_scheduler(hook: Option<Arc<dyn Fn() + Send + Sync>>) {
+    SCHEDULER.with(|s| *s.borrow_mut() = hook);
+}
+
+/// Scheduling point: called before every instrumented atomic operation.
+pub fn yield_point() {
+    let hook = SCHEDULER.with(|s| s.borrow().clone());
+    if let Some(h) = hook {
+        h();
+    }
+}
+
+/// Instrumented atomics with the subset of the std API used by this workspace.
+pub mod atomic {
+    use super::yield_point;
+    use std::sync::atomic::Ordering;
+
+    macro_rules! instrumented {
+        ($name:ident, $std:ty, $int:ty) => {
+            /// Instrumented counterpart of the std atomic of the same name.
+            #[derive(Debug, Default)]
+            pub struct $name($std);
+
+            impl $name {
+                /// See the std atomic.
+                pub const fn new(v: $int) -> Self {
+                    Self(<$std>::new(v))
+                }
+                /// The wrapped std atomic, not instrumented (for monitors).
+                pub fn raw(&self) -> &$std {
+                    &self.0
+                }
+                /// See the std atomic.
+                pub fn load(&self, o: Ordering) -> $int {
+                    yield_point();
+                    self.0.load(o)
+                }
+                /// See the std atomic.
+                pub fn store(&self, v: $int, o: Ordering) {
+                    yield_point();
+                    self.0.store(v, o)
+                }
+                /// See the std atomic.
+                pub fn fetch_add(&self, v: $int, o: Ordering) -> $int {
+                    yield_point();
+                    self.0.fetch_add(v, o)
+                }
+                /// See the std atomic.
+                pub fn fetch_sub(&self, v: $int, o: Ordering) -> $int {
+                    yield_point();
+                    self.0.fetch_sub(v, o)
+                }
+                /// See the std atomic.
+                pub fn compare_exchange(
+                    &self,
+                    current: $int,
+                    new: $int,
+                    success: Ordering,
+                    failure: Ordering,
+                ) -> Result<$int, $int> {
+                    yield_point();
+                    self.0.compare_exchange(current, new, success, failure)
+                }
+                /// See the std atomic.
+                pub fn compare_exchange_weak(
+                    &self,
+                    current: $int,
+                    new: $int,
+                    success: Ordering,
+                    failure: Ordering,
+                ) -> Result<$int, $int> {
+                    yield_point();
+                    self.0.compare_exchange_weak(current, new, success, failure)
+                }
+                /// See the std atomic (one scheduling point: a single read-modify-write).
+                pub fn fetch_update<F>(
+                    &self,
+                    set_order: Ordering,
+                    fetch_order: Ordering,
+                    f: F,
+                ) -> Result<$int, $int>
+                where
+                    F: FnMut($int) -> Option<$int>,
+                {
+                    yield_point();
+                    self.0.fetch_update(set_order, fetch_order, f)
+                }
+            }
+        };
+    }
+
+    instrumented!(AtomicU64, std::sync::atomic::AtomicU64, u64);
+    instrumented!(AtomicUsize, std::sync::atomic::AtomicUsize, usize);
+}
